@@ -23,7 +23,9 @@ def eval_call(self: Exec, n, env):
     self.store = self.old_store
     self.heap = self.old_heap if self.old_heap is not None else self.heap
     try:
-      return self.eval(n.args[0], Env(self.old_env))
+      e_old = Env(env)  # bound variables of enclosing quantifiers stay visible
+      e_old.vars.update(self.old_env.vars)
+      return self.eval(n.args[0], e_old)
     finally:
       self.store, self.heap = saved_store, saved_heap
   if isinstance(n.func, ast.Name) and n.func.id == 'acq' and not env.has('acq'):
@@ -114,6 +116,11 @@ def call_value(self: Exec, f, args, kwargs, node=None):
       raise OutsideSubset(f'{f.ctor}: arity')
     ts = [self.coerce(a, U.field_sort(c.name, fn)).t for a, (fn, _) in zip(args, c.fields)]
     return SV(U, U.mk(c.name, *ts))
+  if isinstance(f, Inline):
+    from .extract import find_function
+    fnode, _, _ = find_function(*f.target.split('::'))
+    self.used_externals.add('inlined: ' + f.target)
+    return call_closure(self, Closure(fnode, Env(None), f.target.split('::')[1]), args, kwargs)
   if isinstance(f, Effect):
     if kwargs or len(args) != len(f.argsorts):
       raise OutsideSubset(f'{f.name}: call shape differs from the recorded-effect signature')
@@ -135,8 +142,21 @@ def call_value(self: Exec, f, args, kwargs, node=None):
   if isinstance(f, TypeTag):
     # calling a class: exceptions only
     return ExcVal(f, args)
+  if isinstance(f, SV) and isinstance(f.sort, Union) and not self.spec_mode:
+    inner = self.unwrap(f)
+    if inner is not f and isinstance(inner, SV):
+      return call_value(self, inner, args, kwargs, node)
   if isinstance(f, SV) and isinstance(f.sort, FuncSort):
     return apply_funcval(self, f, args)
+  if isinstance(f, SV) and getattr(f.sort, 'pytypes', None):
+    # calling an instance: <Class>.__call__ from the sidecar bindings
+    for cls in f.sort.pytypes:
+      key = f'{cls}.__call__'
+      if key in self.spec.bindings:
+        self.used_externals.add(key)
+        return call_value(self, self.spec.bindings[key], [f] + list(args), kwargs, node)
+    if getattr(f.sort, 'call_hook', None):
+      return f.sort.call_hook(self, f, args, kwargs)
   if isinstance(f, Sort):
     raise OutsideSubset('a sort is not callable')
   raise OutsideSubset(f'call of {f!r} (line {getattr(node, "lineno", "?")})')
@@ -279,6 +299,10 @@ def apply_contract(self: Exec, sp: C.FnSpec, args, kwargs):
   names = [p for p, _ in sp.params]
   vals = {}
   args = list(args)
+  va = getattr(sp, 'vararg', None)
+  if va is not None:
+    fixed = names.index(va)
+    args = args[:fixed] + [PyTuple(args[fixed:])]
   if len(args) > len(names):
     raise OutsideSubset(f'{sp.short}: too many arguments')
   for (p, s), a in zip(sp.params, args):
